@@ -1,6 +1,7 @@
 import Heathcliff.Proofs.C12A
 import Heathcliff.Proofs.C12D
 import Heathcliff.Proofs.C12E
+import Heathcliff.Proofs.GenDwt
 
 /- C12 — CKKS encoding is the rounded scaled canonical embedding on every path.
    Property theorems only (proofs are the helper lemmas of Heathcliff/Proofs/C12A..E).  The model is
@@ -195,6 +196,21 @@ theorem encode_within_bound_partial : EncodeWithinDoubleBoundStatement := by
           linarith
       _ = bound + 1/2 := by ring
   · rw [abs_sub_comm]; exact abs_sub_round (fl j)
+
+/-! ### translator tie (phase 4e): the encoder's FFT is the SAME generic handler `DWTHandler` (src/util/dwthandler.rs) that serves the NTT,
+     instantiated with complex arithmetic.  The functions generated from its source (Gen/DwtFns.lean) equal the model network
+     `runFwdA` / `runInvA` for ANY arithmetic whose operations are total (f64 / complex operations never panic): `encode` calls
+     `transform_from_rev(.., Some(&fix))`, `decode` calls `transform_to_rev(.., None)`.  (Proofs/GenDwt.lean; the numeric content of the
+     double-precision instance stays with the tolerance oracle, see above.) -/
+theorem gen_fft_transform_to_rev_eq {α ρ σ : Type} [Inhabited α] (A : Arith α ρ) (ms : α → σ → α) (k : Nat) (hk : k < 64) (vals : List α)
+    (hv : vals.length = 2^k) (roots : List ρ) (rf : Nat → ρ) (hrf : ∀ j, j < 2^k → roots[j]? = some (rf j)) (sc : Option σ) :
+    GenD.transform_to_rev (gd_total A ms) vals k roots sc = .ok (gd_scaled ms sc (runFwdA A k rf vals.toArray k).toList) :=
+  HC.gd_transform_to_rev_total A ms k hk vals hv roots rf hrf sc
+
+theorem gen_fft_transform_from_rev_eq {α ρ σ : Type} [Inhabited α] (A : Arith α ρ) (ms : α → σ → α) (k : Nat) (hk : k < 64) (vals : List α)
+    (hv : vals.length = 2^k) (roots : List ρ) (rf : Nat → ρ) (hrf : ∀ j, j < 2^k → roots[j]? = some (rf j)) (sc : Option σ) :
+    GenD.transform_from_rev (gd_total A ms) vals k roots sc = .ok (gd_scaled ms sc (runInvA A k rf vals.toArray k).toList) :=
+  HC.gd_transform_from_rev_total A ms k hk vals hv roots rf hrf sc
 
 /-! ### non-vacuity -/
 example : c12_res (-5) 7 = 2 := by decide
